@@ -77,7 +77,7 @@ func init() {
 				return reflect.ValueOf(expression.NumField())
 			}
 
-			a.Panicf("len(): invalid value type %s", expression.Type())
+			a.Panicf("len(): invalid value type %s", getTypeString(expression))
 			return reflect.Value{}
 		})),
 		"includeIfExists": reflect.ValueOf(Func(func(a Arguments) reflect.Value {
